@@ -12,7 +12,7 @@ EXTENDS Naturals, Sequences, FiniteSets, TLC, Json
 CONSTANTS Kinds,        \* hostile event kinds
           MaxHostile    \* how many of them per run
 
-LegitSteps == 5         \* datagrams of the legitimate session that this daemon receives / answers (it is the responder): INIT, AUTH, a CHILD_SA rekey, the delete of the old CHILD_SA, the delete of the IKE_SA
+LegitSteps == 7         \* datagrams of the legitimate session that this daemon receives / answers (it is the responder): INIT, AUTH, a CHILD_SA rekey, the delete of the old CHILD_SA, an IKE_SA rekey, the delete of the old IKE_SA, the delete of the IKE_SA
 
 VARIABLES pc, session, hostile, handled, last
 vars == <<pc, session, hostile, handled, last>>
